@@ -10,6 +10,7 @@ use crate::nitrogql_ast::r#type::Type as AstType;
 use crate::graphql_type_system::r#type::Type;
 use crate::graphql_type_system::definitions::TypeDefinition;
 
+pub open spec fn sup_names<'src>(sup: Seq<(Ident<'src>, Value<'src>)>) -> Seq<Seq<char>> { Seq::new(sup.len(), |i: int| sup[i].0.name@) }
 /// 3.5 Scalars, input coercion of literals (custom scalars are not validated)
 pub open spec fn scalar_accepts(name: Seq<char>, v: Value) -> bool {
     if name == "Boolean"@ { v is BooleanValue }
@@ -77,6 +78,8 @@ pub open spec fn named_ok<'src, S>(sch: &Schema<S, Pos>, vars: Option<&Variables
         TypeDefinition::Enum(e) => v is NullValue || (v is EnumValue && exists|k: int| 0 <= k < e.members@.len() && tv((#[trigger] e.members@[k]).name.inner) == v->EnumValue_0.value@),
         TypeDefinition::InputObject(o) => v is NullValue || (v is ObjectValue && {
             let sup = v->ObjectValue_0.fields@;
+            // 5.6.3 Input Object Field Uniqueness
+            &&& nodup(sup_names(sup))
             // 5.6.2 Input Object Field Names
             &&& forall|i: int| 0 <= i < sup.len() ==> argdef_names(o.fields@).contains((#[trigger] sup[i]).0.name@)
             // 5.6.4 Input Object Required Fields, 5.6.1 field values
@@ -97,7 +100,12 @@ pub open spec fn field_ok<'src, S>(sch: &Schema<S, Pos>, vars: Option<&Variables
         }
     } else { true }
 }
-/// the specification's rule
+/// the rule nitrogql implements (= the specification's rule except on known finding KF-C04-1; implies it: lemma
+/// C03.value.strict_implies_spec in unit value)
 pub open spec fn value_valid<'src, S>(sch: &Schema<S, Pos>, vars: Option<&VariablesDefinition<'src>>, v: Value<'src>, t: Type<S, Pos>) -> bool {
+    value_ok(sch, vars, v, t, true)
+}
+/// the specification's rule
+pub open spec fn value_valid_spec<'src, S>(sch: &Schema<S, Pos>, vars: Option<&VariablesDefinition<'src>>, v: Value<'src>, t: Type<S, Pos>) -> bool {
     value_ok(sch, vars, v, t, false)
 }
